@@ -51,34 +51,37 @@ def c4 : Nat := (p - 5) / 8
 /-- `c = sqrt(-486664)` (the sign the code uses). -/
 def cEd : Nat := 6853475219497561581579357271197624642482790079785650197046958215289687604742
 
+/-! The straight-line program of `curve25519Elligator2` (RFC 9380 §G.2.1), one definition per
+    intermediate value so that `Lib/EmbedElligator.lean` can reason about each. -/
+namespace Ell2
+def tv1 (u : Nat) : Nat := 2 * (u * u % p) % p
+def xd (u : Nat) : Nat := (1 + tv1 u) % p
+def x1n : Nat := negMod J p
+def gxd (u : Nat) : Nat := xd u * xd u % p * xd u % p
+def gx1 (u : Nat) : Nat := ((J * tv1 u % p * x1n % p + xd u * xd u % p) % p) * x1n % p
+/-- `gxd⁷·gx1` (the value raised to `c4`). -/
+def tpow (u : Nat) : Nat :=
+  (gxd u * gxd u % p) * (gxd u * gxd u % p) % p * ((gxd u * gxd u % p) * gxd u % p * gx1 u % p) % p
+def y11 (u : Nat) : Nat := powMod (tpow u) c4 p * ((gxd u * gxd u % p) * gxd u % p * gx1 u % p) % p
+def y12 (u : Nat) : Nat := y11 u * c3 % p
+def e1 (u : Nat) : Bool := decide (y11 u * y11 u % p * gxd u % p = gx1 u)
+def y1 (u : Nat) : Nat := if e1 u then y11 u else y12 u
+def x2n (u : Nat) : Nat := x1n * tv1 u % p
+def y21 (u : Nat) : Nat := y11 u * u % p * c2 % p
+def y22 (u : Nat) : Nat := y21 u * c3 % p
+def gx2 (u : Nat) : Nat := gx1 u * tv1 u % p
+def e2 (u : Nat) : Bool := decide (y21 u * y21 u % p * gxd u % p = gx2 u)
+def y2 (u : Nat) : Nat := if e2 u then y21 u else y22 u
+def e3 (u : Nat) : Bool := decide (y1 u * y1 u % p * gxd u % p = gx1 u)
+def xn (u : Nat) : Nat := if e3 u then x1n else x2n u
+def ysel (u : Nat) : Nat := if e3 u then y1 u else y2 u
+def e4 (u : Nat) : Bool := decide (ysel u % 2 = 1)
+/-- Sign adjustment: `sgn0(y)` must equal `e3`. -/
+def y (u : Nat) : Nat := if e3 u != e4 u then negMod (ysel u) p else ysel u
+end Ell2
+
 /-- `curve25519Elligator2`: `(xn, xd, yn, yd)` of a point of Curve25519 `y² = x³ + J x² + x`. -/
-def ell2 (u : Nat) : Nat × Nat × Nat × Nat :=
-  let tv1 := 2 * (u * u % p) % p
-  let xd := (1 + tv1) % p
-  let x1n := negMod J p
-  let tv2 := xd * xd % p
-  let gxd := tv2 * xd % p
-  let gx1 := ((J * tv1 % p * x1n % p + tv2) % p) * x1n % p
-  let tv3 := gxd * gxd % p
-  let tv2' := tv3 * tv3 % p
-  let tv3' := tv3 * gxd % p * gx1 % p
-  let tv2'' := tv2' * tv3' % p
-  let y11 := powMod tv2'' c4 p * tv3' % p
-  let y12 := y11 * c3 % p
-  let e1 := decide (y11 * y11 % p * gxd % p = gx1)
-  let y1 := if e1 then y11 else y12
-  let x2n := x1n * tv1 % p
-  let y21 := y11 * u % p * c2 % p
-  let y22 := y21 * c3 % p
-  let gx2 := gx1 * tv1 % p
-  let e2 := decide (y21 * y21 % p * gxd % p = gx2)
-  let y2 := if e2 then y21 else y22
-  let e3 := decide (y1 * y1 % p * gxd % p = gx1)
-  let xn := if e3 then x1n else x2n
-  let y := if e3 then y1 else y2
-  let e4 := decide (y % 2 = 1)
-  let y' := if e3 != e4 then negMod y p else y
-  (xn, xd, y', 1)
+def ell2 (u : Nat) : Nat × Nat × Nat × Nat := (Ell2.xn u, Ell2.xd u, Ell2.y u, 1)
 
 /-- `mapToCurveElligator2Ed25519`: the affine Edwards point (exceptional case ↦ the identity). -/
 def mapToEdwards (u : Nat) : Edwards.Pt :=
